@@ -156,6 +156,12 @@ func (checker *Checker) rootOfAccessChain(target ast.Expression) (baseVariable *
 				elementType = indexExprTypes.IndexedType.ElementType(true)
 			}
 			accessChain = append(accessChain, elementType)
+			// The indexed value is the container that is written into:
+			// e.g. in `s.arrayRef[0] = 1` the indexed expression `s.arrayRef` has a reference type,
+			// which appears nowhere else on the chain (the member access `s.arrayRef` contributes the type of `s`).
+			if ok {
+				accessChain = append(accessChain, indexExprTypes.IndexedType)
+			}
 		case *ast.MemberExpression:
 			target = targetExp.Expression
 			memberType, _, _, _ := checker.visitMember(targetExp, true)
@@ -217,6 +223,22 @@ func (checker *Checker) enforceViewAssignment(statement ast.Statement, target as
 	if baseVariable.DeclarationKind == common.DeclarationKindSelf {
 		if checker.functionActivations.Current().InitializationInfo == nil {
 			checker.ObserveImpureOperation(statement)
+			return
+		}
+
+		// Only the value being constructed is local to the view scope.
+		// The last two elements of the access chain are the type of `self`
+		// (the variable, and the member access on it); everything before them is reached
+		// *through* a field of `self`: a write through a reference or into a resource stored there
+		// (e.g. `self.ref.x = 1`, `self.arrayRef[0] = 1`, `self.res.x = 1`)
+		// reaches a value that may have existed before the initializer was called.
+		if len(accessChain) > 2 {
+			for _, t := range accessChain[:len(accessChain)-2] {
+				if !isWriteableInViewContext(t) {
+					checker.ObserveImpureOperation(statement)
+					return
+				}
+			}
 		}
 		return
 	}
